@@ -2,15 +2,17 @@ SPECIFICATION GSpecR
 CONSTANTS
   Times = {0, 1, 2, 3, 4}
   Prices = {1, 2}
-  Qtys = {1, 2, 3}
+  Qtys = {0, 1, 2, 3}
+  NegQtys = {1, 3}
   BalInit = {0, 300, 600, 900, 1200}
   FeePcts = {0, 50}
   Lats = {0, 2, 3}
   Sinces = {0, 1, 2, 3, 4, 5}
-  OpenCids = {"o1", "o2"}
+  OpenCids = {"o1", "o2", "o3"}
   MaxTrades = 100
   ClockSlack = FALSE
   IdSlack = 0
+  OrderSubsets = TRUE
   MaxLen = 16
 INVARIANT Emit
 CHECK_DEADLOCK FALSE
